@@ -1068,6 +1068,10 @@ class Interp:
         if not fr.spec and isinstance(op, (ast.Add, ast.Sub, ast.Mult)) and \
                 (a is VNone or b is VNone or isinstance(a, VStr) != isinstance(b, VStr)):
             self.raise_builtin('TypeError', 'unsupported operand types')
+        if fr.spec and isinstance(op, (ast.Add, ast.Sub, ast.Mult, ast.FloorDiv, ast.Mod)) and \
+                (isinstance(a, (VStr, VNoneT)) or isinstance(b, (VStr, VNoneT))):
+            # ill-typed sub-term of a clause (guarded elsewhere in the clause): unspecified value
+            return VInt(self.path.fresh_int('undef'))
         raise OutOfSubset('binop %s on %r, %r' % (type(op).__name__, a, b))
 
     def check_shift(self, y, fr):
